@@ -187,28 +187,41 @@ def seeded_for(pid):
 
 def run_battery(pid, root):
     """returns dict(twins=[...], mutants=[...], noisy=[...], missed=[...])"""
+    import concurrent.futures as cf
     res = dict(twins=[], mutants=[], noisy=[], missed=[], undecided=[], skipped=[])
-    for kind in TWINS:
+
+    def twin_job(kind):
         tmp = make_twin(root, kind)
         try:
             rc, lines = run_check(pid, tmp)
         finally:
             shutil.rmtree(tmp, ignore_errors=True)
-        res['twins'].append(dict(kind=kind, rc=rc, lines=lines[:3]))
-        if rc == 1:
-            res['noisy'].append(kind)
-        elif rc != 0:
-            res['undecided'].append(kind)
-    for name, patch in seeded_for(pid):
+        return ('twin', kind, rc, lines)
+
+    def mutant_job(item):
+        name, patch = item
         tmp = make_mutant(root, patch)
         if tmp is None:
-            res['skipped'].append(name)
-            continue
+            return ('skip', name, None, [])
         try:
             rc, lines = run_check(pid, tmp)
         finally:
             shutil.rmtree(tmp, ignore_errors=True)
-        res['mutants'].append(dict(name=name, rc=rc, lines=lines[:2]))
-        if rc != 1:
-            res['missed'].append(name)
+        return ('mutant', name, rc, lines)
+
+    jobs = [(twin_job, k) for k in TWINS] + [(mutant_job, it) for it in seeded_for(pid)]
+    with cf.ThreadPoolExecutor(max_workers=min(16, max(1, len(jobs)))) as ex:
+        for (what, name, rc, lines) in ex.map(lambda j: j[0](j[1]), jobs):
+            if what == 'twin':
+                res['twins'].append(dict(kind=name, rc=rc, lines=lines[:3]))
+                if rc == 1:
+                    res['noisy'].append(name)
+                elif rc != 0:
+                    res['undecided'].append(name)
+            elif what == 'skip':
+                res['skipped'].append(name)
+            else:
+                res['mutants'].append(dict(name=name, rc=rc, lines=lines[:2]))
+                if rc != 1:
+                    res['missed'].append(name)
     return res
